@@ -217,6 +217,13 @@ func (FinalizerMonitor) OnWrite(x *Ctx, w *Write) {
 			if v := ViewWorkload(x.W, sc); v != nil && v.Controlled {
 				x.Violate("C18/early/batchrelease-finalizer", "BatchRelease finalizer removed while the workload still carries the control-info annotation")
 			}
+			// generated canary Deployments are only collectable once their own finalizer is gone
+			for _, o := range x.W.Store.PeekAll("deployments") {
+				a := accessor(o)
+				if a.GetNamespace() == sc.ns() && a.GetLabels()[util.CanaryDeploymentLabel] != "" && hasFinalizer(a.GetFinalizers(), util.CanaryDeploymentFinalizer) {
+					x.Violate("C18/early/batchrelease-finalizer/canary-deployment-keeps-finalizer", "BatchRelease finalizer removed while the generated canary Deployment "+a.GetName()+" still carries "+util.CanaryDeploymentFinalizer+" (it can never be collected)")
+				}
+			}
 		}
 	}
 }
